@@ -31,6 +31,8 @@ pub struct BRule {
     /// `Some(k)`: before the k-th assignment (k = number of assignments: after the last one) stands an action that
     /// fails when it runs -- a method call on an object no fact holds (`Missing.poke()`). Only C10 part A sets it.
     pub fails_at: Option<usize>,
+    /// the rule is in the knowledge base but switched off (`enabled = false`). Only C10 part A sets it.
+    pub disabled: bool,
 }
 
 #[derive(Clone, Debug, PartialEq)]
@@ -198,7 +200,7 @@ pub fn gen_kb(s: &mut Src, max_rules: usize, force_monotone: Option<bool>) -> Kb
             heads.push((dname(j), if s.bool() { good(&kb, j) } else { bad(&kb, j) }));
         }
         let salience = [0, 0, 5, 10][s.below(4)];
-        kb.rules.push(BRule { name: format!("r{}", i), salience, cond, heads, fails_at: None });
+        kb.rules.push(BRule { name: format!("r{}", i), salience, cond, heads, fails_at: None, disabled: false });
     }
     kb
 }
@@ -272,7 +274,8 @@ pub fn build_kb(kb: &Kb) -> KnowledgeBase {
         if let Some(k) = r.fails_at {
             actions.insert(k.min(actions.len()), ActionType::MethodCall { object: "Missing".to_string(), method: "poke".to_string(), args: vec![] });
         }
-        let rule = Rule::new(r.name.clone(), cond_to_engine(&r.cond), actions).with_salience(r.salience);
+        let mut rule = Rule::new(r.name.clone(), cond_to_engine(&r.cond), actions).with_salience(r.salience);
+        rule.enabled = !r.disabled;
         let _ = k.add_rule(rule);
     }
     k
@@ -302,8 +305,9 @@ pub fn render(kb: &Kb, st: &Store) -> String {
     let mut s = String::new();
     for r in &kb.rules {
         s.push_str(&format!(
-            "  {} salience {}: when {} then {}\n",
+            "  {}{} salience {}: when {} then {}\n",
             r.name,
+            if r.disabled { " [disabled]" } else { "" },
             r.salience,
             r.cond.grl(0),
             {
